@@ -143,7 +143,9 @@ class PopulatorAdapter:
         self.order = ('fs', 'asc', 'desc')[(self.variant // 2 + self.counter) % 3]
         self.map = self.desper.ResourceMap()
         # the root may come from the constructor or from the call: alternate, the other one is a decoy
-        ctor_root = self.root if self.variant & 1 else os.path.join(self.root, 'no-such-root')
+        # ... and the same directory may be spelled with a trailing separator or a redundant './' (every third replay)
+        self.spelled = (self.root, self.root + os.sep, os.path.join(self.root, '.') + os.sep)[(self.variant // 7 + self.counter) % 3]
+        ctor_root = self.spelled if self.variant & 1 else os.path.join(self.root, 'no-such-root')
         self.pop = self.desper.DirectoryResourcePopulator(ctor_root, nest_on_conflict=sc['cn'],
                                                           trim_extensions=sc['ct'])
         self.n_rules = 0
@@ -201,7 +203,7 @@ class PopulatorAdapter:
         if call['t'] != 'N':
             opts['trim_extensions'] = call['t'] == 'T'
         if not self.variant & 1:
-            opts['root'] = self.root
+            opts['root'] = self.spelled
         with listing_order(self.order):
             _v, ex = guarded(lambda: self.pop(self.map, **opts))
         cols, maps, raw = {}, set(), {}
